@@ -286,6 +286,19 @@ ADD9 = {
  "C16": " Round 9: CE reads frozen package-level tables (chunk automaton as map / array literals); SEQ-STARTCHUNK resolves the state a helper returns.",
  "C18": " Round 9: CE models closures and sort.Search (EncodeDictCap as a binary search).",
 }
+ADD10 = {
+ "C01": " Round 10: CE-WRITEMATCH (decoder match copy = sequential LZ copy on all states of small rings), CE-COPYN (raw chunk payload out of the encoder ring).",
+ "C03": " Round 10: CE-WRITEMATCH, CE-STATE-RESET (Reset = newState cell by cell); the position mask is whichever state field holds 2^pb-1 after Reset.",
+ "C04": " Round 10: V13-stored-index-fresh (the stored index records are not read into the measured ones); forwarding wrappers.",
+ "C06": " Round 10: CE-WRITEMATCH.",
+ "C07": " Round 10: CE-WRITEMATCH.",
+ "C08": " Round 10: CE-COPYN.",
+ "C10": " Round 10: CE-COPYN, CE-WRITEMATCH (lib).",
+ "C12": " Round 10: SEQ-ADVANCE (streams and blocks of a chain are decoded behind what the previous ones delivered).",
+ "C16": " Round 10: CE-STATE-RESET, CE-COPYN.",
+}
+for pid, text in ADD10.items():
+    ADD9[pid] = ADD9.get(pid, "") + text
 for pid, text in ADD9.items():
     ADD8[pid] = ADD8.get(pid, "") + text
 for pid, text in ADD8.items():
